@@ -395,6 +395,41 @@ pub fn c04(ctx: &Ctx) -> Report {
             rep.count_n("iterator_calls", s.ops.len() as u64 - 2);
             let out = compare(d, rep, &s);
             judge_history(d, rep, &c, &s, &out);
+            // tables with long keys (index keys beyond any small inline buffer): histories that visit a late block, walk
+            // or seek BACKWARDS across block boundaries, then seek forward again (state remembered about "the current
+            // block" must be the current block's)
+            if c.es.len() >= 3 && c.es.iter().any(|e| e.0.len() > 33) {
+                for _ in 0..4 {
+                    let keys: Vec<Vec<u8>> = c.es.iter().map(|e| e.0.clone()).collect();
+                    let mut ops = vec![open_op(rng, 0, 0, &c), Op::Iter(0, 0)];
+                    for _ in 0..6 {
+                        let late = rng.range(keys.len() / 2, keys.len() - 1);
+                        ops.push(Op::Seek(0, keys[late].clone()));
+                        ops.push(Op::Cur(0));
+                        if rng.chance(1, 2) {
+                            for _ in 0..rng.range(1, 3) {
+                                ops.push(Op::Prev(0));
+                                ops.push(Op::Cur(0));
+                            }
+                        } else {
+                            ops.push(Op::Seek(0, keys[rng.below(late.max(1))].clone()));
+                            ops.push(Op::Cur(0));
+                        }
+                        let mut fwd = keys[rng.range(1, keys.len() - 1)].clone();
+                        if rng.chance(1, 2) {
+                            fwd.push(0);
+                        }
+                        ops.push(Op::Seek(0, fwd));
+                        ops.push(Op::Cur(0));
+                        ops.push(Op::Next(0));
+                    }
+                    let s2 = Session { cap: rng.range(1, 4), files: vec![c.img.clone()], faults: vec![], ops };
+                    rep.case(&s2.request(), true);
+                    rep.count("back_and_forth_histories_on_long_key_tables");
+                    let out2 = compare(d, rep, &s2);
+                    judge_history(d, rep, &c, &s2, &out2);
+                }
+            }
             if i % 8 == 0 {
                 // a panic inside the crate is the business of the judged run above, not of this glue comparison
                 let mut glue = Report::new("C04", "");
